@@ -3,15 +3,16 @@
 # Runs the quick checks against a scratch worktree of /repo with a property-PRESERVING change applied: every check must stay
 # quiet (exit 0). Prints one line per check; the scratch worktree is removed afterwards.
 set -u
+VHOME=$(cd "$(dirname "$0")/.." && pwd)   # the checks of the tree this script lives in (a snapshot works too)
 export GOFLAGS=-mod=mod GOPROXY=off GOSUMDB=off
 patch=$(readlink -f "$1"); shift
-props=${*:-$(python3 -c "import json;print(' '.join(c['property_id'] for c in json.load(open('/verif/MANIFEST.json'))['checks']))")}
+props=${*:-$(python3 -c "import json;print(' '.join(c['property_id'] for c in json.load(open('$VHOME/MANIFEST.json'))['checks']))")}
 wt=/var/tmp/benign-wt-$$
 git -C /repo worktree add --detach $wt HEAD -q || exit 2
 trap 'git -C /repo worktree remove --force '$wt EXIT
 git -C $wt apply "$patch" || { echo "try_benign: patch does not apply"; exit 2; }
 (cd $wt && go build ./...) || { echo "try_benign: does not build"; exit 2; }
-cd /verif
+cd "$VHOME"
 bad=0
 for p in $props; do
   out=$(VERIF_REPO=$wt VERIF_EVIDENCE_DIR=/var/tmp/benign-evidence VERIF_REPLAY_DIR=/var/tmp/benign-replays-$$ VERIF_BUDGET_S=${VERIF_BUDGET_S:-15} ./check $p quick 2>&1); rc=$?
